@@ -58,6 +58,8 @@ func VT_C07_Value() {
 	vt.Assert(proto.Equal(v.Get(), snap), "store-unaffected-by-caller-modifying-written-message")
 	// reads with and without mask leave the store alone
 	_ = v.Get(WithReadPaths(&T7{}, "default_int32"))
+	_ = v.Get(WithReadMask(vth.Mask("default_foreign_message.c", "repeated_foreign_message.c"))) // nested paths
+	_ = v.Get(WithReadMask(vth.Mask("default_foreign_message")))
 	_ = v.Get()
 	vt.Assert(proto.Equal(v.Get(), snap), "reads-leave-stored-state-unchanged")
 	// a later write must not change what was handed out before
@@ -97,6 +99,10 @@ func VT_C07_Collection() {
 	gb, _ := c.Get("b")
 	vt.Assert(proto.Equal(gb, snapB), "store-unaffected-by-caller-modifying-added-message")
 	_ = c.List(WithReadPaths(&T7{}, "default_int32"))
+	_ = c.List(WithReadMask(vth.Mask("default_foreign_message.c", "repeated_foreign_message.c"))) // nested paths
+	_, _ = c.Get("b", WithReadMask(vth.Mask("default_foreign_message.d")))
+	gb2, _ := c.Get("b")
+	vt.Assert(proto.Equal(gb2, snapB), "masked-reads-leave-stored-state-unchanged")
 	old, err := c.Delete("a")
 	vt.Assert(err == nil, "delete-succeeds")
 	vt.Freeze(old, "delete-result")
